@@ -114,6 +114,59 @@ func PrecRule(w *World, r *Result, rule string) {
 			}
 		}
 	}
+	// a prefix operator can be repeated (!!ok): its operand is read by the prefix level itself, or
+	// the level takes the operators off in a loop
+	if pf, err := BuildParserFacts(w); err == nil {
+		for _, s := range pf.Slots {
+			if s.Node != "UnaryOperation" || s.List || slotReq[s.Key()] == "-" {
+				continue
+			}
+			fn := s.Fn
+			self, other := false, ""
+			for _, o := range pf.origins(s.Val, map[ssa.Value]bool{}) {
+				if o.kind != "value" || o.val == nil {
+					continue
+				}
+				var call *ssa.Call
+				switch x := o.val.(type) {
+				case *ssa.Extract:
+					call, _ = x.Tuple.(*ssa.Call)
+				case *ssa.Call:
+					call = x
+				}
+				if call == nil {
+					continue
+				}
+				if callee := call.Call.StaticCallee(); callee == fn {
+					self = true
+				} else if callee != nil {
+					other = FuncName(callee)
+				}
+			}
+			// the operator tokens are consumed in a loop
+			looped := false
+			loops := naturalLoops(fn)
+			for _, b := range fn.Blocks {
+				for _, ins := range b.Instrs {
+					if c, ok := ins.(*ssa.Call); ok && loops[b] != nil {
+						if callee := c.Call.StaticCallee(); callee != nil && isTokenConsumer(callee) {
+							looped = true
+						}
+					}
+				}
+			}
+			key := "prec:prefix:" + FuncName(fn)
+			pos := w.Pos(s.Instr.Pos())
+			switch {
+			case self:
+				r.Ok(rule, key, pos, "the operand of a prefix operator is read by the prefix level itself: the operator can be repeated")
+			case looped:
+				r.Ok(rule, key, pos, "prefix operators are taken off in a loop: the operator can be repeated")
+			default:
+				r.Bad(rule, key, pos, fmt.Sprintf("the operand of the prefix operator is read by %s, the level below, which does not know the operator: !!ok – well-typed in Go – is rejected (unknown expression)", other))
+			}
+		}
+	}
 	// every binary operator spelling of the lexer table is on exactly one level
 	want := map[string]bool{}
 	for _, e := range lf.Punct {
